@@ -51,6 +51,7 @@ MAP = [
  ("explicit array bounds in a user type", ["C03"]),
  ("parentheses around quotient factors", ["C03"]),
  ("insertion order of the phase map", ["C15"]),
+ ("default successor or an initial phase", ["C10"]),
 ]
 def main():
     log = subprocess.run(["git", "-C", "/repo", "log", "--reverse", "--format=%h %s"],
